@@ -106,6 +106,7 @@ func (t *cacheT) cb(id int) cache.EvictedCallback {
 			return
 		}
 		logf("fire:%d:%d:%d", id, keyOfStr(k), t.code(v))
+		logf("firecnt:%d", t.c.Count()) // what the callback sees of the cache while it runs (lock-free read)
 	}
 }
 func (t *cacheT) Set(k, v, d int64)       { t.c.Set(strKey(k), t.val(v), time.Duration(d)) }
@@ -213,6 +214,7 @@ func (t *cacheOfT[K, V]) cb(id int) cache.EvictedCallbackOf[K, V] {
 			return
 		}
 		logf("fire:%d:%d:%d", id, t.unkey(k), t.code(v))
+		logf("firecnt:%d", t.c.Count())
 	}
 }
 func (t *cacheOfT[K, V]) Set(k, v, d int64)     { t.c.Set(t.key(k), t.val(v), time.Duration(d)) }
